@@ -7,6 +7,7 @@ import (
 	"encoding/base64"
 	"fmt"
 	"io"
+	"math"
 	"os"
 	"os/signal"
 	"strings"
@@ -1077,6 +1078,12 @@ func (vx *Vaxis) handleSequence(seq ansi.Sequence) {
 			typ := seq.Parameters[0][0]
 			h := seq.Parameters[1][0]
 			w := seq.Parameters[2][0]
+			if (typ == 8 || typ == 48) && (h > math.MaxUint16 || w > math.MaxUint16) {
+				// No terminal is that large (a winsize has 16 bits for
+				// each): not a size we could allocate a screen for
+				log.Error("[CSI] size report out of range: %s", seq)
+				return
+			}
 			switch typ {
 			case 4:
 				vx.mu.Lock()
